@@ -216,3 +216,21 @@ Proof.
   rewrite nth_error_flat_map_mid by (rewrite map_length, zrange_length; lia).
   rewrite nth_error_map. rewrite nth_error_zrange by lia. simpl. do 2 f_equal. lia.
 Qed.
+
+(* dtw.distance_matrix returns [] before computing anything only for a block that selects no pair *)
+Lemma zrange_empty a b : b <= a -> zrange a b = [].
+Proof. intros H. unfold zrange. replace (Z.to_nat (b - a)) with 0%nat by lia. reflexivity. Qed.
+
+Theorem early_empty_selects_nothing n blk : b_some blk = true -> valid_block n blk ->
+  py_dm_early_empty (fst (b_rows blk)) (snd (b_rows blk)) (fst (b_cols blk)) (snd (b_cols blk)) = true ->
+  pairs n blk = [].
+Proof.
+  intros Hs [Hv|(Hrb & Hre & Hcb & Hce)] He; [congruence|].
+  unfold py_dm_early_empty in He. apply orb_true_iff in He. unfold pairs, block_rows. rewrite Hs. cbn [negb].
+  destruct He as [He|He]; apply Z.ltb_lt in He.
+  - rewrite zrange_empty by lia. reflexivity.
+  - assert (Hcols : forall r, row_cols n blk r = []).
+    { intros r. unfold row_cols. rewrite Hs. cbn [negb]. destruct (b_notriu blk); apply zrange_empty; lia. }
+    induction (zrange (fst (b_rows blk)) (snd (b_rows blk))) as [|r l IH]; cbn [flat_map]; [reflexivity|].
+    rewrite Hcols, IH. reflexivity.
+Qed.
